@@ -10,7 +10,7 @@ Transcription of the *integer* part of
 * `LeakyQuantizer` / `LeakilyQuantizedDistribution` (`quantize.rs`): `new`, `slack`,
   `left_cumulative_and_probability`, `quantile_function` (the search), the symbol-table iterator,
 
-all **after** the repairs D1, D4, D10, D14, D16, D25, D26 (see DESIGN §7 and the final report of component
+all **after** the repairs D1, D4, D10, D14, D16, D25, D27 (see DESIGN §7 and the final report of component
 `quant`).  IEEE arithmetic is an external call here: the float pipeline enters only through the
 integer sequences it produces,
 
@@ -329,7 +329,7 @@ def LQ.up (m : LQ) (gl gr : Ext) (q : Nat) :
           | .ok (symbol, step) => m.up gl gr q fuel symbol step left false
 
 /-- `DecoderModel::quantile_function`; `hint` = `inner.inverse(..).as_()` (already a `Symbol`).
-    Returns `(symbol, left_cumulative, probability)`.  After D26 the final conversion is the
+    Returns `(symbol, left_cumulative, probability)`.  After D27 the final conversion is the
     checked `into_nonzero().expect(..)`: no unsafe precondition is left in `quantize.rs`. -/
 def LQ.dec (m : LQ) (gl gr : Ext) (fuel : Nat) (hint : Int) (q : Nat) : SM (Int × Nat × Nat) :=
   let maxProb := (2 ^ m.B - 1) >>> (m.B - m.P)
